@@ -68,6 +68,10 @@ impl<D: Digest + digest::FixedOutput + digest::FixedOutputDirty + digest::Reset 
 pub const FIXED_ALGS: [&str; 12] = [
     "Blake224", "Blake256", "Blake384", "Blake512", "Groestl224", "Groestl256", "Groestl384", "Groestl512", "Jh224", "Jh256", "Jh384", "Jh512",
 ];
+/// output lengths that need more than 256 output blocks (the block counter of the output stage leaves its low byte)
+pub type UBig256 = digest::generic_array::typenum::Sum<U8192, U8>;       // 8200  > 256 * 32
+pub type UBig512 = digest::generic_array::typenum::Sum<U16384, U9>;      // 16393 > 256 * 64
+pub type UBig1024 = digest::generic_array::typenum::Sum<U32768, U17>;    // 32785 > 256 * 128
 pub const SKEIN_N: [usize; 25] = [1, 2, 3, 7, 8, 9, 16, 20, 28, 31, 32, 33, 48, 63, 64, 65, 96, 127, 128, 129, 160, 200, 256, 257, 300];
 
 macro_rules! skein_arms {
@@ -101,6 +105,9 @@ pub fn make_hash(alg: &str, n: usize) -> Box<dyn Hx> {
         "Jh256" => Some(Box::new(jh_x86_64::Jh256::default())),
         "Jh384" => Some(Box::new(jh_x86_64::Jh384::default())),
         "Jh512" => Some(Box::new(jh_x86_64::Jh512::default())),
+        "Skein256" if n == 8200 => Some(Box::new(skein_hash::Skein256::<UBig256>::default())),
+        "Skein512" if n == 16393 => Some(Box::new(skein_hash::Skein512::<UBig512>::default())),
+        "Skein1024" if n == 32785 => Some(Box::new(skein_hash::Skein1024::<UBig1024>::default())),
         "Skein256" => skein_make!(Skein256, n),
         "Skein512" => skein_make!(Skein512, n),
         "Skein1024" => skein_make!(Skein1024, n),
@@ -190,6 +197,14 @@ pub fn drive_digests(out: &mut dyn std::io::Write, family: &str, seed: u64, thor
                     let m = message(&mut rng, l, n as u64);
                     digest_event(out, alg, n, &m, "outlen", cfg);
                 }
+            }
+        }
+        if family == "skein" {
+            // more than 256 output blocks (quick: the 256-bit state only; thorough: all three)
+            let big = match *alg { "Skein256" => 8200, "Skein512" => 16393, _ => 32785 };
+            if thorough || *alg == "Skein256" {
+                let m = message(&mut rng, 5, 3);
+                digest_event(out, alg, big, &m, "bigout", cfg);
             }
         }
         // longer random messages
